@@ -359,13 +359,17 @@ def body_history(case, ctx):
 
 
 # ------------------------------------------------------------------ the same numbers in other array forms
-INT_FORMS = ["int64", "int32", "float32", "fortran", "strided"]
+INT_FORMS = ["int64", "int32", "int16", "uint8", "uint16", "float32", "fortran", "strided"]
 
 
 def as_form(a, form):
+    """the same numbers in another array form; a form that cannot hold them exactly falls back to int64 / float64"""
     a = np.array(a, dtype=float)
-    if form in ("int64", "int32", "float32"):
-        return a.astype(form)
+    if form in ("int64", "int32", "int16", "int8", "uint8", "uint16", "uint32", "float32"):
+        out = a.astype(form)
+        if np.array_equal(out.astype(float), a):
+            return out
+        return a.astype(np.int64) if np.array_equal(np.round(a), a) else a.copy()
     if form == "fortran":
         return np.asfortranarray(a)
     if form == "strided":
@@ -381,7 +385,10 @@ def form_cases(draw):
     n = draw(st.integers(3, 7))
     pts = draw(st.lists(st.tuples(*[st.integers(-6, 6)] * d), min_size=n, max_size=n, unique=True))
     return {"seed": draw(st.integers(0, 2**31)), "d": d, "n": n, "x": [list(p) for p in pts],
+            # the lattice spacing of the coordinates, and whether they are shifted to be non-negative (unsigned forms can hold them)
+            "x_step": draw(st.sampled_from([1, 1, 20, 1000, 20000])), "x_shift": draw(st.booleans()),
             "y": [draw(st.integers(-9, 9)) for _ in range(n)], "err": [draw(st.integers(1, 3)) for _ in range(n)],
+            "y_step": draw(st.sampled_from([1, 1, 10])),
             "noise": draw(st.sampled_from(["none", "y_err", "y_cov"])),
             "q": [[draw(st.integers(-7, 7)) for _ in range(d)] for _ in range(draw(st.integers(1, 4)))],
             "kernel": draw(st.sampled_from([{"k": "SE"}, {"k": "RQ"}, {"k": "Sum", "parts": [{"k": "SE"}, {"k": "White"}]}])),
@@ -391,6 +398,23 @@ def form_cases(draw):
             "x_list": draw(st.booleans())}
 
 
+def rescale_theta(theta, kinds, spec, mean_kind, d, n, step, ystep):
+    """hyper-parameters drawn for unit lattice spacing and unit data scale, moved to spacing `step` and data scale `ystep`"""
+    theta = np.array(theta, dtype=float)
+    nm = rk.mean_n_params(mean_kind, d)
+    theta[0] *= ystep
+    for j in range(1, nm):
+        theta[j] *= ystep / (step if j <= d else step * step)
+    cov = rk.build_kernel(spec)
+    cov.pass_spatial_data(np.zeros((n, d)))
+    for j, lab in enumerate(cov.hyperpar_labels):
+        if "scale" in lab:                       # log length-scale
+            theta[nm + j] += np.log(step)
+        elif "amplitude" in lab or "noise" in lab.lower():
+            theta[nm + j] += np.log(ystep)
+    return theta
+
+
 def body_forms(case, ctx):
     """whole-number data are the same data whether held as float64, integer, single-precision, Fortran-ordered or strided arrays
     (and x as a list of rows): the regressor built from either gives the same predictions"""
@@ -398,10 +422,17 @@ def body_forms(case, ctx):
     spec = case["kernel"]
     X, y, err, Q = (np.array(case[k], dtype=float) for k in ("x", "y", "err", "q"))
     X, Q = X.reshape(n, d), Q.reshape(-1, d)
+    step, ystep = float(case.get("x_step", 1)), float(case.get("y_step", 1))
+    shift = 7.0 if case.get("x_shift") else 0.0
+    X, Q = (X + shift) * step, (Q + shift) * step
+    y, err = y * ystep, err * ystep
     if np.ptp(y) == 0:
         raise Inconclusive("constant data")
     n_theta = rk.mean_n_params(case["mean"], d) + rk.n_params(spec, n, d)
     theta = np.array(case["theta"][:n_theta], dtype=float)
+    # hyper-parameters follow the units: log-amplitudes / noise levels with y, log length-scales with x, mean coefficients with both
+    kinds = None
+    theta = rescale_theta(theta, kinds, spec, case["mean"], d, n, step, ystep)
 
     def build(fx, fy, fe, xl):
         kw = {}
@@ -436,7 +467,11 @@ def body_forms(case, ctx):
     if "float32" in f.values():
         tol = max(tol, 1e-5 * max(kappa, 1.0))
     sc_mu = np.max(np.abs(mu0)) + np.max(np.abs(y)) + 1.0
-    sc_c = np.max(np.abs(cov0)) + 1e-300
+    # (co)variances are differences of prior-sized terms: judged at the scale of the prior variance, not of a posterior variance that
+    # may be orders of magnitude smaller (a query on a noise-free training point)
+    with np.errstate(all="ignore"):
+        prior = np.asarray(ref.cov(Q.copy(), Q.copy(), ref.cov_hyperpars), dtype=float)
+    sc_c = max(float(np.max(np.abs(cov0))), float(np.max(np.abs(prior)))) + 1e-300
     what = ", ".join(f"{k}={v}" for k, v in f.items()) + (", x as list of rows" if case["x_list"] else "")
     if mu1.shape != mu0.shape or cov1.shape != cov0.shape or s1.shape != s0.shape:
         raise Violation("forms-shape", f"[{what}] shapes {mu1.shape}/{cov1.shape}/{s1.shape} vs {mu0.shape}/{cov0.shape}/{s0.shape} from float64 arrays")
